@@ -129,6 +129,9 @@ func NewModel(p *Prog) *Model {
 func childP(parentP, parentX string, t *Task, r *Ref, item string) (string, string) {
 	x := strings.ReplaceAll(r.X, "%ITEM%", item)
 	x = strings.ReplaceAll(x, "{{.X}}", parentX)
+	if t.Run == WhenChanged && t.XVia == "env" && !strings.Contains(x, ",") {
+		x += "," // the identity of these tasks is the pair (X, Y); Y is empty here
+	}
 	switch t.Run {
 	case Once:
 		return SharedKey(t, ""), x
